@@ -231,11 +231,21 @@ impl Node {
             let child_clone = child.clone_with_subtree();
 
             // Step 2.2 Append childClone to documentFragment.
+            // NOTE: The clones end up as children of selectedcontent in step 3.
+            child_clone
+                .parent
+                .set(Some(Rc::downgrade(&selectedcontent)));
             document_fragment.push(child_clone);
         }
 
         // Step 3. Replace all with documentFragment within selectedcontent.
-        *selectedcontent.children.borrow_mut() = document_fragment;
+        let removed = mem::replace(
+            &mut *selectedcontent.children.borrow_mut(),
+            document_fragment,
+        );
+        for child in removed {
+            child.parent.set(None);
+        }
     }
 
     /// Clones the node and all of its descendants, returning a handle to the new subtree.
@@ -243,17 +253,18 @@ impl Node {
     /// This function will run into infinite recursion when the DOM tree contains cycles and it makes
     /// no attempts to guard against that.
     fn clone_with_subtree(&self) -> Rc<Self> {
-        let children = self
-            .children
-            .borrow()
-            .iter()
-            .map(|child| child.clone_with_subtree())
-            .collect();
-        Rc::new(Self {
-            parent: Cell::new(self.parent()),
+        // The clone is not inserted anywhere yet; its descendants point to their cloned parents.
+        let clone = Rc::new(Self {
+            parent: Cell::new(None),
             data: self.data.clone(),
-            children: RefCell::new(children),
-        })
+            children: RefCell::new(Vec::new()),
+        });
+        for child in self.children.borrow().iter() {
+            let child_clone = child.clone_with_subtree();
+            child_clone.parent.set(Some(Rc::downgrade(&clone)));
+            clone.children.borrow_mut().push(child_clone);
+        }
+        clone
     }
 }
 
